@@ -160,6 +160,9 @@ func genRuntime(r *simcore.Rand, e *progEnv) []byte {
 	a := newAsm()
 	n := r.Range(2, 9)
 	slot := func() uint64 { return uint64(r.Intn(e.nslots)) }
+	if e.blockhash && r.Bool(0.3) {
+		a.push(uint64(r.Range(1, 4))).op(opNUMBER, opSUB, opBLOCKHASH).acc()
+	}
 	for i := 0; i < n; i++ {
 		switch r.Pick(14, 14, 6, 5, 12, 7, 5, 6, 3, 3, 3, 2, 4, 3) {
 		case 0: // SLOAD into accumulator
@@ -294,7 +297,7 @@ func genRuntime(r *simcore.Rand, e *progEnv) []byte {
 			}
 			switch k {
 			case 5:
-				a.push(uint64(r.Range(1, 3))).op(opNUMBER, opSUB, opBLOCKHASH).acc()
+				a.push(uint64(r.Range(1, 4))).op(opNUMBER, opSUB, opBLOCKHASH).acc()
 			case 0:
 				a.op(opSELFBALANCE).acc()
 			case 1:
@@ -465,7 +468,8 @@ func fixedPrecompileInput(pre byte, k int) []byte {
 		copy(in[4:], seed)
 		in[212] = 1
 		return in
-	default:
-		return append(append([]byte{}, seed...), seed[:k*7]...)
+	default: // variants share a 32 byte prefix and differ in the tail
+		base := crypto.Keccak256([]byte("same input for sha256, ripemd160 and identity"))
+		return append(append([]byte{}, base...), seed[:k*7]...)
 	}
 }
